@@ -241,6 +241,18 @@ def _delta_target(ctx, side, f, item):
         other_arith = [x for x in v.walk() if x.k == "bin" or (x.k == "call" and re.search(r"(wrapping|saturating|overflowing)_", x.a[0]))]
         if not arg_ok or not propagated or other_arith:
             bad.append("stored value %s is not `checked_add_signed(%s, %s)` with propagated failure" % (v, want, delta))
+    # whatever way the Option is unwrapped: the failure branch of the checked primitive must end in Err, never in Ok
+    n_fail = 0
+    for p in H.paths(f):
+        failed = H.failure_branch_taken(p, r"u128::checked_add_signed\(")
+        if failed:
+            n_fail += 1
+            if A_kind(p["ret"]) != "err":
+                bad.append("the failure branch of checked_add_signed returns %s" % p["ret"])
+        elif failed is None and A_kind(p["ret"]) == "ok":
+            bad.append("an Ok path does not branch on the result of checked_add_signed")
+    if n_fail == 0:
+        bad.append("no failure branch of checked_add_signed found")
     need = seen[None] >= 1 if item == "apply_delta_to_long_amount" else (seen[True] >= 1 and seen[False] >= 1)
     ctx.ob(key, not bad and need, "%s: Ok paths (pure=%d impure=%d undecided=%d) each store checked_add_signed(field, %s)? into %s%s" % (
         f.short, seen[True], seen[False], seen[None], delta,
